@@ -24,12 +24,12 @@ _CREATED = _dt.datetime(2024, 1, 1)
 FINAL = {"SUCCEEDED", "FAILED_CONTINUE", "TERMINAL", "CANCELED", "STOPPED", "SKIPPED"}
 
 
-def _siblings(w, wf_status: WorkflowStatus = WorkflowStatus.RUNNING, **kw):
+def _siblings(w, wf_status: WorkflowStatus = WorkflowStatus.RUNNING, kw_b: dict | None = None, **kw):
     mk = lambda ref, deps, **k: StageExecution(ref_id=ref, name=ref, type="x", requisite_stage_ref_ids=set(deps),  # noqa: E731
                                                tasks=[TaskExecution.create(name="t", implementing_class="x", stage_start=True, stage_end=True)], **k)
     r = mk("r", [], status=WorkflowStatus.SUCCEEDED)
     a = mk("a", ["r"], **kw)
-    b = mk("b", ["r"], **kw)
+    b = mk("b", ["r"], **(kw if kw_b is None else kw_b))
     wf = Workflow(application="a", name="w", stages=[r, a, b], status=wf_status)
     w.store.store(wf)
     return wf, a, b
@@ -75,8 +75,11 @@ def _start_pair(kind: int, v0, name: str) -> bool:
     with hx.Path(name) as P:
         w = world2.SWorld(name="pair")
         try:
-            kw = {"mutex_key": "k"} if kind == 0 else {"deferred_choice_group": "g"}
-            wf, a, b = _siblings(w, **kw)
+            if kind == 2:  # a member of the choice group that also carries a mutex key of its own
+                wf, a, b = _siblings(w, kw_b={"deferred_choice_group": "g"}, deferred_choice_group="g", mutex_key="only_a")
+            else:
+                kw = {"mutex_key": "k"} if kind == 0 else {"deferred_choice_group": "g"}
+                wf, a, b = _siblings(w, **kw)
             set_cells(w, "stage_executions", a.id, version=v0)
             sb, qb = _worker_b(w)
             state = {"done": False}
@@ -96,7 +99,7 @@ def _start_pair(kind: int, v0, name: str) -> bool:
             sa, sbst = row_of(w, "stage_executions", a.id)["status"], row_of(w, "stage_executions", b.id)["status"]
             with hx.native():
                 P.reached((kind, sa, sbst))
-                info = {"kind": ["mutex", "choice"][kind], "a": sa, "b": sbst,
+                info = {"kind": ["mutex", "choice", "choice"][kind], "a_also_has_a_mutex_key": kind == 2, "a": sa, "b": sbst,
                         "requeued_a": len(_msgs(w, "StartStage", a.id)), "cancel_a": len(_msgs(w, "CancelStage", a.id)), "cancel_b": len(_msgs(w, "CancelStage", b.id))}
             running = [s for s in (sa, sbst) if s == "RUNNING"]
             if len(running) > 1:
@@ -129,6 +132,14 @@ def choice_pair(v0: int) -> bool:
     post: _
     """
     return _start_pair(1, v0, "choice_pair")
+
+
+def choice_pair_with_mutex(v0: int) -> bool:
+    """
+    pre: 0 <= v0 <= 1000
+    post: _
+    """
+    return _start_pair(2, v0, "choice_pair_with_mutex")
 
 
 def claims_retention(wf_status: int, other_status: int) -> bool:
@@ -204,6 +215,7 @@ PLAN = [
     ("acquire_claim_step", "quick", 280),
     ("mutex_pair", "quick", 200),
     ("choice_pair", "quick", 200),
+    ("choice_pair_with_mutex", "quick", 200),
     ("claims_retention", "quick", 200),
     ("claims_retention_owner", "quick", 280),
 ]
